@@ -191,18 +191,19 @@ reg('C08', 'other',
     'Not decided: every pair of numbers below 100 in every language (the contexts are the grammar table\'s classes, not all 10^4 pairs).',
     T_LEX + '; ' + T_VM, 'DESIGN.md §10.2, §10.4')
 reg('C09', 'other',
-    [scanvm.rule_lone_policy, sentences.rule_threshold_in_sentences],
+    [scanvm.rule_lone_policy, sentences.rule_threshold_in_sentences, sentences.rule_threshold_corpus],
     "V09 on every token script (length <= 4, 5 thorough) over {single-digit word, two-digit word, ordinal, linking word, decimal separator word, ordinary word, comma, period} "
     "and thresholds 0, 1, 10, 21, inf, NaN (+ 2, 100, -1 thorough): the recognised numbers are the same at every threshold; the reported occurrences "
     "are exactly the recognised numbers minus those small (one digit or ordinal, value < t) and isolated (no same-kind number adjacent once non-breakers "
     "are ignored); threshold 0 / NaN report all; what breaks a sequence is tabulated per token class (alphabetic non-linking word, lone period incl. "
     "with Unicode spaces; not commas, digits, ellipses, linking words in any case); scripts in which a separator word ends up outside every number are "
     "counted but not compared (the statement does not say whether it separates). S09: the same policy on generated sentences in the seven languages "
-    "at thresholds 0, 3, 10, 100, NaN, incl. a lone digit next to a decimal on either side. " + MACHINE,
+    "at thresholds 0, 3, 10, 100, NaN, incl. a lone digit next to a decimal on either side; S09-THRESHOLD-CORPUS: over the generated corpus "
+    "(every kind of number phrase x 11 contexts per language) the occurrences at threshold 10 are a subset of those at 0 and only small numbers are hidden. " + MACHINE,
     'The hold/release policy compared, on the scanner\'s complete case tables, with the policy as the property states it.',
     MACHINE, T_VM, 'DESIGN.md §10.3')
 reg('C10', 'other',
-    [scanvm.rule_fresh_start, sentences.rule_context_in_sentences, only(lexeval.rule_neuf_annotate, r'^fr\|multi\|'), only(lexeval.rule_o_annotate, r'^en\|multi\|'), scanner.rule_scratch_hygiene, only(dsvm.rule_builder_cases, r'^reset-is-new$')],
+    [scanvm.rule_fresh_start, sentences.rule_context_in_sentences, sentences.rule_corpus_context, only(lexeval.rule_neuf_annotate, r'^fr\|multi\|'), only(lexeval.rule_o_annotate, r'^en\|multi\|'), scanner.rule_scratch_hygiene, only(dsvm.rule_builder_cases, r'^reset-is-new$')],
     "V10 on every token script the first word after a finished number is offered to apply on an empty, non-ordinal integer builder in integer mode; "
     "scripts A + [word word word .] + B give the occurrences of A then those of B at thresholds 0, 10, 100; punctuation keeps two numbers apart; "
     "A-NEUF-ANNOTATE / A-O-ANNOTATE: the French and English ambiguity passes, evaluated with the crate's own digit builder on texts with two "
@@ -212,7 +213,7 @@ reg('C10', 'other',
     'Context independence decided on the scanner\'s case tables (fresh start, A+separator+B) and by a typestate analysis of the scratch builders.',
     MACHINE, T_VM + '; MIR typestate dataflow', 'DESIGN.md §10.3, §10.5')
 reg('C11', 'other',
-    [sentences.rule_linking_case, scanvm.rule_case_scanner, only(scanvm.rule_validator_entry, r'^words\|(case|plain)\|'), sentences.rule_case_in_sentences],
+    [sentences.rule_linking_case, scanvm.rule_case_scanner, only(scanvm.rule_validator_entry, r'^words\|(case|plain)\|'), sentences.rule_case_in_sentences, sentences.rule_corpus_case],
     "S11 sentences with numbers and with the language's own linking words, in lower, UPPER and Capitalised form, give the same numbers in each real "
     "language at thresholds 0 and 10; V11 the scanner's case table is unchanged when every token text is upper-cased "
     "(lowercase form kept); text2digits hands the lower-cased words to the group interpreter.",
@@ -274,7 +275,7 @@ reg('C16', 'other',
     'Not decided: the scanner-level split of "n zero" for every language (covered for the abstract language by C07/C15 tables).',
     T_LEX + '; ' + T_VM, 'DESIGN.md §10.2, §10.4')
 reg('C17', 'other',
-    [textflow.rule_ws_api, textvm.rule_tokenizer, scanvm.rule_ws_scanner, only(scanvm.rule_validator_entry, r'^words\|(ws|plain)\|'), sentences.rule_ws_in_sentences, sentences.rule_ws_context_sentences],
+    [textflow.rule_ws_api, textvm.rule_tokenizer, scanvm.rule_ws_scanner, only(scanvm.rule_validator_entry, r'^words\|(ws|plain)\|'), sentences.rule_ws_in_sentences, sentences.rule_ws_context_sentences, sentences.rule_corpus_whitespace],
     "B10 no ASCII-only whitespace facility anywhere in the library (call and fn-item inventory); V02-TOKENIZER separators are maximal non-alphanumeric "
     "runs for every class string incl. 2- and 3-byte spaces; V17 the scanner's case table is unchanged when whitespace tokens are replaced by other "
     "Unicode whitespace, when whitespace tokens are added at either end, and when the whitespace glued to punctuation tokens changes; text2digits splits "
